@@ -454,8 +454,8 @@ impl Property for Dyn {
     }
     fn runs(&self, tier: Tier) -> u64 {
         match tier {
-            Tier::Quick => 40_000,
-            Tier::Thorough => 1_500_000,
+            Tier::Quick => 600_000,
+            Tier::Thorough => 16_000_000,
         }
     }
     fn gen(&self, run_seed: u64, _tier: Tier) -> Value {
